@@ -143,12 +143,14 @@ Definition heap_x86_case (i r : sexp) : verdict :=
                         let peak := fold_left (fun a x => match x with Some (_, _, pk, _) => Z.max a pk | None => a end) results 0 in
                         let fr := fold_left (fun a x => match x with Some (_, _, _, f) => Z.max a f | None => a end) results 0 in
                         let verdicts := List.length (filter (fun x => match x with Some _ => true | None => false end) results) in
+                        (* C10: Proof/HeapTrace.footprint_exact says frontier blocks = peak in use + 1 at operation granularity *)
+                        let slack := fold_left (fun a x => match x with Some (_, _, pk, f) => Z.max a (f - pk) | None => a end) results 0 in
                         match mcs with
                         | None => VDiff "marked model code minus markers" ("differs from the implementation's code (see C06); heap invariant checked through the implementation's own statement comments on " ++ n_to_string (N.of_nat verdicts) ++ " runs in lockstep, " ++ n_to_string nb ++ " boundaries, no violation")
                         | Some _ =>
                             VOk ((if N.eqb nb 0 then "noruns" else "nt") ++ " boundaries" ++ n_to_string (N.log2 (nb + 1))
                                  ++ " peak" ++ z_to_string (Z.log2 (peak + 1)) ++ (if fr >? 1 then " allocates" else " noalloc")
-                                 ++ " verdicts" ++ n_to_string (N.of_nat verdicts))
+                                 ++ " verdicts" ++ n_to_string (N.of_nat verdicts) ++ " slack" ++ z_to_string slack)
                         end
                     end
               | _, _ => VBad "rust output unreadable"
